@@ -268,9 +268,18 @@ pub fn try_cleanup_corrupt_lock_file(data_dir: impl AsRef<Path>) -> Result<bool,
         return Ok(false);
     }
 
-    if authority_meta_path(&data_dir).exists() {
-        return Ok(false);
-    }
+    // A meta file next to an unreadable lock was left by an earlier authority. Keep waiting while
+    // that authority may still be alive; the meta file of a dead one goes away with the lock,
+    // otherwise the store could never be started again.
+    let meta_path = authority_meta_path(&data_dir);
+    let stale_meta_pid = if meta_path.exists() {
+        match read_authority_meta(&data_dir) {
+            Ok(Some(meta)) if matches!(pid_liveness(meta.pid), PidLiveness::Dead) => Some(meta.pid),
+            _ => return Ok(false),
+        }
+    } else {
+        None
+    };
     #[cfg(rip_verif)]
     rip_kernel::verif::point("auth.corrupt.checked", || serde_json::json!({}));
 
@@ -288,6 +297,11 @@ pub fn try_cleanup_corrupt_lock_file(data_dir: impl AsRef<Path>) -> Result<bool,
     #[cfg(rip_verif)]
     rip_kernel::verif::point("auth.corrupt.renamed", || serde_json::json!({}));
 
+    if let Some(pid) = stale_meta_pid {
+        if matches!(read_authority_meta(&data_dir), Ok(Some(meta)) if meta.pid == pid) {
+            let _ = fs::remove_file(&meta_path);
+        }
+    }
     let _ = fs::remove_file(tombstone);
     Ok(true)
 }
